@@ -165,7 +165,7 @@ def run(ctx):
             if w["rc"] != 0:
                 if w["alloc"] and ldok:
                     n_alloc += 1
-                    key = f"{w['alloc']}:relr-odd-address" if c["relr"] and c["predicted_mismatch"] else f"{w['alloc']}:ptr-{c['out']}"
+                    key = f"{w['alloc']}:relr-parity" if c["relr"] and c["predicted_mismatch"] else f"{w['alloc']}:ptr-{c['out']}"
                     ctx.verdict.report(
                         key, f"{res['name']}: position-independent link fails with a size-accounting error "
                              f"({w['err'].strip().splitlines()[-1][:160]}); GNU ld links the same objects; "
